@@ -17,6 +17,7 @@ def profiles(tier):
     return [
         dict(n=60 if q else 800, maxlen=22, nremotes=2, caps=(16, 64, 4096), vlanes=["val", "tval"], mlanes=["map", "tmap"], usecmd=True, keys=(1, 2, 3), faults=("restart", "kill"), burst=True),
         dict(n=50 if q else 800, maxlen=26, nremotes=2, caps=(24, 4096), vlanes=["val", "val2"], mlanes=["omap", "map"], usecmd=False, keys=(1, 2), faults=("restart", "kill", "drop"), burst=False),
+        dict(n=40 if q else 600, maxlen=22, nremotes=2, caps=(24, 4096), vlanes=["val"], mlanes=["map"], usecmd=True, keys=(1, 2, 3), faults=("restart", "kill", "rich"), advances=(25, 60), burst=True),
     ]
 
 
